@@ -871,6 +871,10 @@ def run(rep, tier):
     for u_ in (uc, ug, ugs):
         n_al += r_tbaa.check(rep, u_, [f for f in u_.function_list if f.relfile() in (CH, GO)])
     rep.floor("typed objects accessed through a cast pointer", n_al, 4)
+    n_bp = 0
+    for u_ in (uc, ug, ugs):
+        n_bp += r_tbaa.check_byte_param_casts(rep, u_, [f for f in u_.function_list if f.relfile() in (CH, GO)])
+    rep.floor("caller buffers accessed through wider types", n_bp, 6)
     return driver.finish(
         rep, "other",
         "Static analysis of chacha.h and gost28147.h (neither is compiled by the test suite). Decided: ChaCha constants, "
